@@ -185,6 +185,52 @@ def check_pair(spec):
     return ok(outcome=[collided, meas], nontrivial=collided)
 
 
+# ---------------------------------------------------------------------------------------------- measurement pairs
+def _meas_alphabet():
+    import pennylane as qp
+    import numpy as np
+
+    A = np.array([[0.7, 0.2 - 0.4j], [0.2 + 0.4j, -1.1]])
+    M = {
+        "eZ0": lambda: qp.expval(qp.Z(0)), "eZ1": lambda: qp.expval(qp.Z(1)), "eX0": lambda: qp.expval(qp.X(0)),
+        "vZ0": lambda: qp.var(qp.Z(0)), "eZ0Z1": lambda: qp.expval(qp.Z(0) @ qp.Z(1)), "eZ1Z0": lambda: qp.expval(qp.Z(1) @ qp.Z(0)),
+        "e2Z0": lambda: qp.expval(2.0 * qp.Z(0)), "eH": lambda: qp.expval(qp.Hermitian(A, 0)), "eH1": lambda: qp.expval(qp.Hermitian(A, 1)),
+        "eHt": lambda: qp.expval(qp.Hermitian(A.T, 0)), "eP0": lambda: qp.expval(qp.Projector([0], 0)), "eP1": lambda: qp.expval(qp.Projector([1], 0)),
+        "eSum": lambda: qp.expval(0.5 * qp.X(0) + 2.0 * qp.Z(1)), "eSum2": lambda: qp.expval(2.0 * qp.X(0) + 0.5 * qp.Z(1)),
+        "p01": lambda: qp.probs(wires=[0, 1]), "p10": lambda: qp.probs(wires=[1, 0]), "p0": lambda: qp.probs(wires=[0]), "p012": lambda: qp.probs(wires=[0, 1, 2]),
+        "state": lambda: qp.state(), "dm0": lambda: qp.density_matrix([0]), "dm01": lambda: qp.density_matrix([0, 1]), "dm10": lambda: qp.density_matrix([1, 0]),
+        "pur0": lambda: qp.purity([0]), "pur01": lambda: qp.purity([0, 1]),
+        "vn0": lambda: qp.vn_entropy([0]), "vn0b2": lambda: qp.vn_entropy([0], log_base=2), "vn01": lambda: qp.vn_entropy([0, 1]),
+        "mi0_1": lambda: qp.mutual_info([0], [1]), "mi0_12": lambda: qp.mutual_info([0], [1, 2]), "mi01_2": lambda: qp.mutual_info([0, 1], [2]),
+        "mi0_1b2": lambda: qp.mutual_info([0], [1], log_base=2), "mi1_0": lambda: qp.mutual_info([1], [0]),
+    }
+    return M
+
+
+MEAS_NAMES = ["eZ0", "eZ1", "eX0", "vZ0", "eZ0Z1", "eZ1Z0", "e2Z0", "eH", "eH1", "eHt", "eP0", "eP1", "eSum", "eSum2", "p01", "p10", "p0", "p012",
+              "state", "dm0", "dm01", "dm10", "pur0", "pur01", "vn0", "vn0b2", "vn01", "mi0_1", "mi0_12", "mi01_2", "mi0_1b2", "mi1_0"]
+
+
+def check_meas_pair(spec):
+    """Two tapes with identical operations and different measurement processes through one cache."""
+    import pennylane as qp
+
+    M = _meas_alphabet()
+    ops = lambda: [qp.RY(0.7, 0), qp.RX(0.4, 1), qp.CNOT([0, 1]), qp.RY(1.1, 2), qp.CNOT([1, 2]), qp.RX(0.3, 0)]
+    tapes = [qp.tape.QuantumScript(ops(), [M[spec["m1"]]()]), qp.tape.QuantumScript(ops(), [M[spec["m2"]]()])]
+    ref = [_flat(r) for r in qp.execute(tapes, qp.device("default.qubit", wires=3), cache=False)]
+    cache = {} if spec["cache"] == "dict" else True
+    if spec["cache"] == "dict":
+        got = [_flat(qp.execute([t], qp.device("default.qubit", wires=3), cache=cache)[0]) for t in tapes]
+    else:
+        got = [_flat(r) for r in qp.execute(tapes, qp.device("default.qubit", wires=3), cache=cache)]
+    for i in (0, 1):
+        if not _same(got[i], ref[i]):
+            kinds = sorted({spec["m1"].rstrip("0123456789_b"), spec["m2"].rstrip("0123456789_b")})
+            return bad("measurement-collide:" + "~".join(kinds), got[i], ref[i], m1=spec["m1"], m2=spec["m2"])
+    return ok(outcome=[tapes[0].hash == tapes[1].hash], nontrivial=spec["m1"] != spec["m2"])
+
+
 def run(ctx):
     n = 2 if ctx.quick else 3
     batches = list(words(LETTERS, n, 1))
@@ -207,11 +253,13 @@ def run(ctx):
                     for meas in ("probs", "state"):
                         pairs.append({"gate": name, "param": which, "shift": shift, "wrapper": wrapper, "meas": meas})
     ctx.enumerate(pairs, fn="check_pair", axis="collision-pairs")
+    ctx.enumerate([{"m1": a, "m2": b, "cache": k} for a in MEAS_NAMES for b in MEAS_NAMES for k in (("true",) if ctx.quick else ("true", "dict"))],
+                  fn="check_meas_pair", axis="measurement-pairs")
     ctx.coverage.update({
         "states": len(specs), "transitions": sum(sum(len(c) for c in s["calls"]) for s in specs),
         "traces_validated_against_impl": len(specs),
         "alphabet": {"tapes": LETTERS, "caches": ["True", "LRUCache(1)", "LRUCache(2)", "user dict across 2 executes"],
-                     "gates": list(GATES), "wrappers": WRAPPERS, "shifts": ["2pi", "4pi"]},
+                     "gates": list(GATES), "wrappers": WRAPPERS, "shifts": ["2pi", "4pi"], "measurement_pairs": MEAS_NAMES},
         "bound": {"batch_len": n, "calls": 2},
         "explanation": "states = execution histories explored; transitions = tape executions through the cache",
     })
